@@ -151,7 +151,7 @@ def gen_expand(tier, rng):
     # ---- IPv4: every prefix length x boundary addresses (+ random), every spelling
     for ln in range(33):
         addrs = (rng.sample(V4_ADDRS, 7) if quick and ln % 8 not in (0, 1, 7) else list(V4_ADDRS)) \
-            + [rng.randrange(1 << 32) for _ in range(2 if quick else 40)]
+            + [rng.randrange(1 << 32) for _ in range(2 if quick else 25)]
         for a in addrs:
             out.append(case4(a, ln, "prefix", rng))
         for st in ("zeroprefix", "netmask", "hostmask"):
@@ -162,7 +162,7 @@ def gen_expand(tier, rng):
     # ---- IPv6: every prefix length x zero-run placements
     temps = zero_run_templates()
     for ln in range(129):
-        ts = rng.sample(temps, 2) if quick else temps
+        ts = rng.sample(temps, 2 if quick else 14)
         fixed = [[0] * 8, [0xFFFF] * 8, [0x2001, 0xdb8, 0, 0, 0, 0, 0, 0]]
         for g in ts + (rng.sample(fixed, 1) if quick else fixed):
             out.append(case6(g2a(g), ln, "canon", rng))
@@ -194,7 +194,7 @@ def gen_expand(tier, rng):
         out.append({"s": f"{ipaddress.IPv6Address(a)}/{ln}", "exp": "invalid"})
     # ---- texts of unknown validity: mutations of valid texts and random strings
     base = [c["s"] for c in out if isinstance(c.get("exp"), dict)]
-    for _ in range(300 if quick else 6000):
+    for _ in range(300 if quick else 4000):
         s = mutate_text(rng.choice(base), rng)
         if rng.random() < 0.3: s = mutate_text(s, rng)
         out.append({"s": s, "exp": None})
@@ -238,8 +238,6 @@ def fixed_groups_nonzero(a, ln):
     return all(x != 0 for x in groups6(a)[: nl // 16])
 
 def known_expand(c, r):
-    if isinstance(r, dict) and r.get("exc") == "IndexError" and "%" in c["s"]:
-        return "D29-ipv6-scoped-host-IndexError"
     if isinstance(r, dict) and r.get("v") == 6:
         if not fixed_groups_nonzero(int(r["addr"]), r["len"]):
             return "D20-ipv6-expansion-misses-addresses"
@@ -294,8 +292,6 @@ def native_to_coq(c, r):
     return f"({cstr(c['s'])}, {cnet(c['net'])}, {rn}, {re_}, {qp})"
 
 def known_native(c, r):
-    if r["expanded"].get("exc") == "IndexError" and "%" in c["s"]:
-        return "D29-ipv6-scoped-host-IndexError"
     return None
 
 def mutate_native(c, rng):
